@@ -105,6 +105,14 @@ def priceLine (p : Bool × Nat × Nat × Nat × Nat) : String :=
 def showCoins (l : CoinList) : String :=
   undash (joinWith "," (sortStrings (l.map fun c => s!"{c.1}:{c.2}")))
 
+/-- `GetPoolByLptDenom(lpt-i)` for every sequence handed out so far -/
+def showLpts (s : State) : String :=
+  undash (joinWith "," ((List.range (min s.seq 64)).filterMap fun i =>
+    if i = 0 then none else
+    some (match findByLpt s.pools (lptDenom i) with
+      | some (cp, _) => s!"{lptDenom i}:{cp}"
+      | none => s!"{lptDenom i}:?")))
+
 /-- canonical state line (sorted entries, zero entries omitted) -/
 def showState (s : State) : String :=
   let ps := sortStrings (s.pools.map fun (cp, n) => s!"{cp}:{n}")
@@ -112,7 +120,7 @@ def showState (s : State) : String :=
   let ss := sortStrings ((s.bank.supply.filter fun e => e.2 != 0).map fun (d, v) => s!"{d}:{v}")
   s!"now={s.now} seq={s.seq} std={s.std} fee={s.params.fee} tax={s.params.tax} ufee={s.params.ufee} " ++
   s!"pcf={s.params.pcfAmt}:{s.params.pcfDenom} pools={undash (joinWith "," ps)} bal={undash (joinWith "," bs)} " ++
-  s!"sup={undash (joinWith "," ss)}"
+  s!"sup={undash (joinWith "," ss)} lpts={showLpts s}"
 
 /-- parse the state part of an observation line (`blocked` is carried over from the reset op) -/
 def parseState (t : List String) (blocked : List Addr) : Option State := do
@@ -233,7 +241,10 @@ def runMonitor (prop : String) (ops obs : Array String) : IO Unit := do
     | "coinswap" :: "reset" :: r =>
       blocked := listOf (dash (arg r "blocked"))
       match parseState o blocked with
-      | some s => pre := s
+      | some s =>
+        pre := s
+        if prop == "C12" && arg o "lpts" != showLpts s then
+          out.putStrLn s!"mon {prop} FAIL clause=lpt-index line={i+1}"; fails := fails + 1
       | none => out.putStrLn s!"mon {prop} FAIL clause=obs-parse line={i+1}"; fails := fails + 1
     | ["coinswap", "export"] =>
       -- C12: the exported genesis of a reachable state passes ValidateGenesis
@@ -252,6 +263,8 @@ def runMonitor (prop : String) (ops obs : Array String) : IO Unit := do
             out.putStrLn s!"mon {prop} FAIL clause=reimport-failed line={i+1}"; fails := fails + 1
           if !(sameObs pre post) then
             out.putStrLn s!"mon {prop} FAIL clause=reimport-changed-state line={i+1}"; fails := fails + 1
+          if arg o "lpts" != showLpts post then
+            out.putStrLn s!"mon {prop} FAIL clause=lpt-index line={i+1}"; fails := fails + 1
         pre := post
       | none => out.putStrLn s!"mon {prop} FAIL clause=obs-parse line={i+1}"; fails := fails + 1
     | _ =>
@@ -279,6 +292,9 @@ def runMonitor (prop : String) (ops obs : Array String) : IO Unit := do
           for c in cs do
             out.putStrLn s!"mon {prop} FAIL clause={c.1} line={i+1}{if c.2 = "" then "" else " class=" ++ c.2}"
             fails := fails + 1
+          -- C12: the lpt-denom index of the registry agrees with the pool list after every message
+          if prop == "C12" && arg o "lpts" != showLpts post then
+            out.putStrLn s!"mon {prop} FAIL clause=lpt-index line={i+1}"; fails := fails + 1
           pre := post
         | _, _ => out.putStrLn s!"mon {prop} FAIL clause=parse line={i+1}"; fails := fails + 1
   out.putStrLn s!"mon {prop} done steps={steps} fails={fails}"
